@@ -11,7 +11,7 @@
 
    This file contains only the property theorems; proofs are in Proofs/ZlibFile*.v. *)
 From Coq Require Import ZArith List.
-Require Import JV.Base.PyPrelude JV.Model.ZlibFile JV.Proofs.ZlibFile JV.Proofs.ZlibFileWrite.
+Require Import JV.Base.PyPrelude JV.Model.ZlibFile JV.Proofs.ZlibFile JV.Proofs.ZlibFileWrite JV.Proofs.ZlibFileOps.
 Import ListNotations.
 Open Scope Z_scope.
 
@@ -42,3 +42,170 @@ Theorem C13_write : forall (C : Type) (compress : C -> bytes -> C * bytes) (flus
     inflate file = Some (concat (ev_chunks evs)).
 Proof. exact write_stream_decodes. Qed.
 Print Assumptions C13_write.
+
+(* ---------------------------------------------------------------------------------------------------
+   The same statement operation by operation.  [Sim s st rs] relates a state [st] of the file object over
+   the file of script [s] to a state [rs] = (position, closed flag) of the abstract byte stream over
+   [payload s]; it holds when the file is opened (C13_open) and every operation below preserves it, so it
+   holds in every reachable state.  F is any fuel >= fuel_for (file_of s). *)
+
+Theorem C13_open : forall s, Sim s (init_state (file_of s)) ref_init.
+Proof. exact op_open. Qed.
+Print Assumptions C13_open.
+
+(* read(n), n > 0 *)
+Theorem C13_read : forall s F, (fuel_for (file_of s) <= F)%nat -> forall st rs, Sim s st rs -> rclosed rs = false ->
+  forall n, 0 < n ->
+  exists st', do_read fill_buffer F n st = Some (VBytes (zfirstn n (zskipn (rpos rs) (payload s))), st') /\
+              Sim s st' (mkRef (rpos rs + len (zfirstn n (zskipn (rpos rs) (payload s)))) false).
+Proof. exact op_read_n. Qed.
+Print Assumptions C13_read.
+
+(* read() / read(-1) *)
+Theorem C13_read_all : forall s F, (fuel_for (file_of s) <= F)%nat -> forall st rs, Sim s st rs -> rclosed rs = false ->
+  forall n, n < 0 ->
+  exists st', do_read fill_buffer F n st = Some (VBytes (zskipn (rpos rs) (payload s)), st') /\
+              Sim s st' (mkRef (len (payload s)) false).
+Proof. exact op_read_all. Qed.
+Print Assumptions C13_read_all.
+
+Theorem C13_read_zero : forall s F, (fuel_for (file_of s) <= F)%nat -> forall st rs, Sim s st rs -> rclosed rs = false ->
+  exists st', do_read fill_buffer F 0 st = Some (VBytes [], st') /\ Sim s st' rs.
+Proof. exact op_read_zero. Qed.
+Print Assumptions C13_read_zero.
+
+(* readinto(b), len(b) = n > 0 *)
+Theorem C13_readinto : forall s F, (fuel_for (file_of s) <= F)%nat -> forall st rs, Sim s st rs -> rclosed rs = false ->
+  forall n, 0 < n ->
+  exists st', do_readinto fill_buffer F n st = Some (VInto (zfirstn n (zskipn (rpos rs) (payload s))), st') /\
+              Sim s st' (mkRef (rpos rs + len (zfirstn n (zskipn (rpos rs) (payload s)))) false).
+Proof. exact op_readinto. Qed.
+Print Assumptions C13_readinto.
+
+(* seek(k, 0): forwards, backwards (rewind + skip), beyond the end (clamped) *)
+Theorem C13_seek_set : forall s F, (fuel_for (file_of s) <= F)%nat -> forall st rs, Sim s st rs -> rclosed rs = false ->
+  forall k, 0 <= k ->
+  exists st', do_seek fill_buffer F (file_of s) k 0 st = Some (VInt (Z.min k (len (payload s))), st') /\
+              Sim s st' (mkRef (Z.min k (len (payload s))) false).
+Proof. exact op_seek_set. Qed.
+Print Assumptions C13_seek_set.
+
+Theorem C13_seek_cur : forall s F, (fuel_for (file_of s) <= F)%nat -> forall st rs, Sim s st rs -> rclosed rs = false ->
+  forall k, 0 <= rpos rs + k ->
+  exists st', do_seek fill_buffer F (file_of s) k 1 st = Some (VInt (Z.min (rpos rs + k) (len (payload s))), st') /\
+              Sim s st' (mkRef (Z.min (rpos rs + k) (len (payload s))) false).
+Proof. exact op_seek_cur. Qed.
+Print Assumptions C13_seek_cur.
+
+Theorem C13_seek_end : forall s F, (fuel_for (file_of s) <= F)%nat -> forall st rs, Sim s st rs -> rclosed rs = false ->
+  forall k, 0 <= len (payload s) + k ->
+  exists st', do_seek fill_buffer F (file_of s) k 2 st =
+                Some (VInt (Z.min (len (payload s) + k) (len (payload s))), st') /\
+              Sim s st' (mkRef (Z.min (len (payload s) + k) (len (payload s))) false).
+Proof. exact op_seek_end. Qed.
+Print Assumptions C13_seek_end.
+
+Theorem C13_seek_bad_whence : forall s F, (fuel_for (file_of s) <= F)%nat -> forall st rs, Sim s st rs ->
+  rclosed rs = false -> forall k w, w <> 0 -> w <> 1 -> w <> 2 ->
+  exists st', do_seek fill_buffer F (file_of s) k w st = Some (VExc ValueError, st') /\ Sim s st' rs.
+Proof. exact op_seek_bad_whence. Qed.
+Print Assumptions C13_seek_bad_whence.
+
+Theorem C13_tell : forall s F, (fuel_for (file_of s) <= F)%nat -> forall st rs, Sim s st rs -> rclosed rs = false ->
+  do_tell st = (VInt (rpos rs), st).
+Proof. exact op_tell. Qed.
+Print Assumptions C13_tell.
+
+Theorem C13_close : forall s F, (fuel_for (file_of s) <= F)%nat -> forall st rs, Sim s st rs -> rclosed rs = false ->
+  exists st', do_close st = (VNone, st') /\ Sim s st' (mkRef (rpos rs) true).
+Proof. exact op_close. Qed.
+Print Assumptions C13_close.
+
+Theorem C13_write_on_reader : forall s F, (fuel_for (file_of s) <= F)%nat -> forall st rs, Sim s st rs ->
+  rclosed rs = false -> do_write_r st = (VExc UnsupportedOperation, st).
+Proof. exact op_write_unsupported. Qed.
+Print Assumptions C13_write_on_reader.
+
+(* closed / readable() / writable() / seekable() / flush() on an open reader *)
+Theorem C13_queries : forall s st rs, Sim s st rs -> rclosed rs = false ->
+  do_query QClosed st = (VBool false, st) /\ do_query QReadable st = (VBool true, st) /\
+  do_query QWritable st = (VBool false, st) /\ do_query QSeekable st = (VBool true, st) /\
+  do_flush st = (VNone, st).
+Proof. exact op_queries. Qed.
+Print Assumptions C13_queries.
+
+(* after close(): ValueError from everything, close() idempotent, closed = True; flush() returns None
+   (IOBase.flush does not see BinaryZlibFile's own closed state -- io.BytesIO raises ValueError there) *)
+Theorem C13_closed : forall s F st rs, Sim s st rs -> rclosed rs = true ->
+  (forall n, do_read fill_buffer F n st = Some (VExc ValueError, st)) /\
+  (forall n, do_readinto fill_buffer F n st = Some (VExc ValueError, st)) /\
+  (forall k w, do_seek fill_buffer F (file_of s) k w st = Some (VExc ValueError, st)) /\
+  do_tell st = (VExc ValueError, st) /\ do_write_r st = (VExc ValueError, st) /\
+  do_close st = (VNone, st) /\ do_query QClosed st = (VBool true, st) /\
+  do_query QReadable st = (VExc ValueError, st) /\ do_query QWritable st = (VExc ValueError, st) /\
+  do_query QSeekable st = (VExc ValueError, st) /\ do_flush st = (VNone, st).
+Proof. exact op_closed. Qed.
+Print Assumptions C13_closed.
+
+(* readline(limit) -- io.IOBase.readline over read(1), loop fuel K > len payload -- is io.BytesIO.readline on
+   the abstract stream: the bytes up to and including the first newline, at most `limit` of them if limit >= 0 *)
+Theorem C13_readline : forall s F K st rs limit,
+  (fuel_for (file_of s) <= F)%nat -> Sim s st rs -> rclosed rs = false -> (len (payload s) < Z.of_nat K) ->
+  exists st', do_readline K F limit st = Some (VBytes (ref_readline (zskipn (rpos rs) (payload s)) limit), st') /\
+              Sim s st' (mkRef (rpos rs + len (ref_readline (zskipn (rpos rs) (payload s)) limit)) false).
+Proof. exact op_readline. Qed.
+Print Assumptions C13_readline.
+
+Theorem C13_readline_closed : forall s F K st rs limit, Sim s st rs -> rclosed rs = true -> limit <> 0 ->
+  (1 <= K)%nat -> do_readline K F limit st = Some (VExc ValueError, st).
+Proof. exact op_readline_closed. Qed.
+Print Assumptions C13_readline_closed.
+
+(* ------------------------------------------------------------------ write mode, operation by operation *)
+Theorem C13_w_write : forall C (compress : C -> bytes -> C * bytes) (flush : C -> bytes) st d,
+  wmode C st = MWrite ->
+  wstep C compress flush (WWrite d) st =
+  (VInt (len d), mkW C MWrite (wpos C st + len d) (fst (compress (wc C st) d))
+                     (wfile C st ++ snd (compress (wc C st) d))).
+Proof. exact wop_write. Qed.
+Print Assumptions C13_w_write.
+
+Theorem C13_w_tell : forall C (compress : C -> bytes -> C * bytes) (flush : C -> bytes) st,
+  wmode C st = MWrite -> wstep C compress flush WTell st = (VInt (wpos C st), st).
+Proof. exact wop_tell. Qed.
+Print Assumptions C13_w_tell.
+
+Theorem C13_w_close : forall C (compress : C -> bytes -> C * bytes) (flush : C -> bytes) st,
+  wmode C st = MWrite ->
+  wstep C compress flush WClose st = (VNone, mkW C MClosed (wpos C st) (wc C st) (wfile C st ++ flush (wc C st))).
+Proof. exact wop_close. Qed.
+Print Assumptions C13_w_close.
+
+Theorem C13_w_unsupported : forall C (compress : C -> bytes -> C * bytes) (flush : C -> bytes) st,
+  wmode C st = MWrite ->
+  wstep C compress flush WRead st = (VExc UnsupportedOperation, st) /\
+  wstep C compress flush WSeek st = (VExc UnsupportedOperation, st).
+Proof. exact wop_unsupported. Qed.
+Print Assumptions C13_w_unsupported.
+
+Theorem C13_w_queries : forall C (compress : C -> bytes -> C * bytes) (flush : C -> bytes) st,
+  wmode C st = MWrite ->
+  wstep C compress flush (WQuery QClosed) st = (VBool false, st) /\
+  wstep C compress flush (WQuery QReadable) st = (VBool false, st) /\
+  wstep C compress flush (WQuery QWritable) st = (VBool true, st) /\
+  wstep C compress flush (WQuery QSeekable) st = (VBool false, st) /\
+  wstep C compress flush WFlush st = (VNone, st).
+Proof. exact wop_queries. Qed.
+Print Assumptions C13_w_queries.
+
+Theorem C13_w_closed : forall C (compress : C -> bytes -> C * bytes) (flush : C -> bytes) st,
+  wmode C st = MClosed ->
+  (forall d, wstep C compress flush (WWrite d) st = (VExc ValueError, st)) /\
+  wstep C compress flush WTell st = (VExc ValueError, st) /\ wstep C compress flush WRead st = (VExc ValueError, st) /\
+  wstep C compress flush WSeek st = (VExc ValueError, st) /\ wstep C compress flush WClose st = (VNone, st) /\
+  wstep C compress flush (WQuery QClosed) st = (VBool true, st) /\
+  wstep C compress flush (WQuery QWritable) st = (VExc ValueError, st) /\
+  wstep C compress flush (WQuery QReadable) st = (VExc ValueError, st) /\
+  wstep C compress flush WFlush st = (VNone, st).
+Proof. exact wop_closed. Qed.
+Print Assumptions C13_w_closed.
